@@ -145,9 +145,18 @@ Section DocRead.
       | FClassRef c => rec c j          (* an object, or the compact form of a single-field wrapper *)
       end.
 
-    (* [ambiguous f j]: somewhere in document j, read for declaration f, a multi-field wrapper has two or more
-       distinct candidate readings (an over-approximation: alternatives that are not chosen are searched too) *)
+    (* [ambiguous f j]: the reading of document j for declaration f is not decided.  Somewhere in it a multi-field
+       wrapper has two or more distinct candidate readings (an over-approximation: alternatives that are not chosen
+       are searched too), or one of the acceptance tests that select the candidates is one on which the model of the
+       constructor DECLINES (vset raises Unmodelled, e.g. an int beyond 2^53 offered to a Float): [lift] counts such
+       a test as "not accepted", which is not a prediction. *)
     Variable rec_amb : pystr -> pyval -> bool.
+
+    Definition vset_declines (g : field) (w : pyval) : bool :=
+      match vset re_match e g w with Raise x => model_exn x | Ok _ => false end.
+
+    Definition reading_declines (g : field) (j : pyval) : bool :=
+      match lift g j with Some w => vset_declines g w | None => false end.
 
     Fixpoint ambiguous (f : field) (j : pyval) {struct f} : bool :=
       let elems (g : field) (l : list pyval) := existsb (ambiguous g) l in
@@ -158,14 +167,19 @@ Section DocRead.
              | _, _ => false
              end) items l in
       let multi (is_not : bool) (fs : list field) :=
-          (2 <=? length (dedup_readings ((if is_not then [j] else []) ++ option_readings lift fs j)))%nat
+          let cands := dedup_readings ((if is_not then [j] else []) ++ option_readings lift fs j) in
+          (2 <=? length cands)%nat
+          || existsb (fun g => reading_declines g j) fs
+          || existsb (vset_declines f) cands
           || (fix any (gs : list field) : bool :=
                 match gs with
                 | [] => false
                 | g :: t => ambiguous g j || any t
                 end) fs in
       match f with
-      | FSeqEach _ g _ _ | FSet _ (Some g) _ | FTuple [g] _ =>
+      | FSet _ (Some g) _ =>
+          match j with PList l => elems g l || existsb (reading_declines g) l | _ => false end
+      | FSeqEach _ g _ _ | FTuple [g] _ =>
           match j with PList l => elems g l | _ => false end
       | FSeqPos _ items _ _ _ | FTuple items _ =>
           match j with PList l => positional items l | _ => false end
